@@ -54,10 +54,8 @@ def h_de(L, T, parts, kind):
     I = L.I
     s, _ = template_bytes(L, parts)
     L.assume_utf8(s)
-    for x in s:
-        if not isinstance(x, int):
-            L.assume(z3.And(x != 0x22, x != 0x5C, z3.UGE(x, 0x20)))
-    req = {'op': 'serde', 'T': KINDS[T][1], 'json': SymStr(json_string(s))}
+    # replayed natively through serde::de::value::{Str, BorrowedStr, String}Deserializer, i.e. the same visitor entry point
+    req = {'op': 'serde', 'T': KINDS[T][1], 'value': {'kind': kind, 'payload': SymStr(s)}}
     L.expect_native(req, {})
     try:
         direct = from_str(I, T, s)
@@ -137,7 +135,7 @@ def confirm(v, resp):
     if 'ok' in de:
         if resp.get('is_json_string') is False:
             return 'a non-string JSON value deserialises to a PURL'
-        if not resp.get('ser_is_display'):
+        if 'ser' in resp and not resp.get('ser_is_display'):
             return 'serde_json::to_string is %r, not the JSON string of to_string()' % hx(resp['ser'])
         if not resp.get('same_as_from_str'):
             return 'deserialised PURL differs from from_str of the same string'
@@ -165,7 +163,7 @@ def vacuity(results):
 
 LEVEL_TEXT = ('bounded symbolic model checking of the serde-feature MIR: Serialize is interpreted against a recording serializer (exactly one collect_str whose text must equal '
               'the interpreted Display -- a solver validity query); Deserialize is interpreted against a one-value deserializer of the serde data model that drives the crate\'s visitor '
-              'as serde documents (str / borrowed str / owned string -> visit_str; every other kind -> invalid_type) and must agree with the interpreted from_str on the same symbolic string; '
-              'witnesses are replayed through serde_json natively')
+              'as serde documents (str -> visit_str, borrowed str -> visit_borrowed_str, owned string -> visit_string, the latter two defaulting to visit_str; every other kind -> invalid_type) and must agree with the interpreted from_str on the same symbolic string; '
+              'witnesses are replayed natively through serde_json (Serialize, and Deserialize of JSON text) and through serde::de::value deserializers (one per visitor entry point)')
 ASSUMPTIONS = ['the claim is about the serde data model; serde_json\'s own framing is only exercised by native replay (strings needing JSON escapes are excluded from the templates)',
                'a Deserializer calls the visit_* method matching the value it holds and visit_borrowed_str / visit_string default to visit_str (serde\'s documented contract)']
